@@ -31,8 +31,15 @@ for m in sorted(glob.glob(os.path.join(V, "seeded", "*", "meta.json"))):
     after = ", ".join(d.get("caught_by_after_strengthening") or [])
     if after:
         first += " -> **" + after + "** after: " + esc(d.get("strengthening", ""))
-    rows.append("| %s-%s | %s | %s | %s | %s |" % (d["id"], d["variant"], d["property"], esc((d.get("summary") or "")[:260]), "yes" if d.get("confirmed") else "no", first))
-stxt = "| seeded change | property | what it does | confirmed (builds, suite green, demo fails/passes) | caught by (quick tier) |\n|---|---|---|---|---|\n" + "\n".join(rows) + "\n"
+    fr = d.get("final_run") or {}
+    if not fr:
+        last = "-"
+    elif not fr.get("applies"):
+        last = "patch no longer applies at %s (code rewritten by a later fix)" % fr.get("repo_head")
+    else:
+        last = (", ".join(fr.get("caught_by") or []) or "MISSED") + " @" + str(fr.get("repo_head"))
+    rows.append("| %s-%s | %s | %s | %s | %s | %s |" % (d["id"], d["variant"], d["property"], esc((d.get("summary") or "")[:260]), "yes" if d.get("confirmed") else "no", first, last))
+stxt = "| seeded change | property | what it does | confirmed (builds, suite green, demo fails/passes) | caught by (quick tier) when evaluated | last full re-run of the matrix (tools/seedmatrix.py) |\n|---|---|---|---|---|---|\n" + "\n".join(rows) + "\n"
 p = os.path.join(V, "DESIGN.md")
 s = open(p).read()
 def put(s, tag, txt):
